@@ -549,6 +549,9 @@ func ruleCTAgree(c *Ctx, s *readFileShape) {
 		c.Unk(fnKey(s.fn)+"/decoder-source", "-", p)
 	}
 	wt, wfn := writerCompTable(P, s.compIface)
+	if ft, folded := writerCompTableByFold(P); folded {
+		wt = ft
+	}
 	if !c.Anchor(wt != nil, "NewFileWriter") {
 		return
 	}
@@ -568,6 +571,11 @@ func ruleCTAgree(c *Ctx, s *readFileShape) {
 			c.Bad(key, rt.where[n], fmt.Sprintf("codec name %q selects %s in ReadFile but %s in NewFileWriter", n, r, w))
 		default:
 			c.OK(key, rt.where[n], fmt.Sprintf("%q -> %s in both ReadFile and NewFileWriter", n, r))
+		}
+	}
+	for n, w := range wt.byName {
+		if !contains(specCompression, n) {
+			c.Bad("codec-name/"+n+"/writer", wt.where[n], fmt.Sprintf("NewFileWriter accepts the codec name %q (giving %s) and the header carries the name as given: that is not one of the specification's codec names, so no conformant reader can open the file", n, w))
 		}
 	}
 	for n, r := range rt.byName {
